@@ -165,10 +165,14 @@ class RefEval:
         v = pub_value(node[1])
         if isinstance(v, float):
             if k == 'c':
-                raw = round(Fr(v) * (1 << self.f))  # constructor: round(value * 2^f), ties to even
-                if not -(1 << (self.l - 1)) <= raw < (1 << (self.l - 1)):
+                raw = round(Fr(v) * (1 << self.f))
+                if not -(1 << (self.l - 1)) < raw < (1 << (self.l - 1)) - 1:
                     raise Invalid('constant out of range')
-                return R(Fr(raw, 1 << self.f))
+                if Fr(raw, 1 << self.f) == Fr(v):
+                    return R(Fr(v))
+                # a float that is not a multiple of 2^-f: the constructor yields a nearest representable value
+                # (whichever way ties go): exact value with half a unit of tolerance
+                return R(Fr(v), self.u / 2)
             return R(Fr(v))
         if k == 'c' and not -(1 << (self.l - 1)) <= (v << self.f) < (1 << (self.l - 1)):
             raise Invalid('constant out of range')
@@ -299,6 +303,21 @@ class RefEval:
         else:
             self.scal(b)
         return a, b
+
+    # -- candidate finding F3a: scalar_mul / schur_prod / matrix_prod / prod (and seclist updates built on
+    # scalar_mul) truncate raw field elements with l = bit_length instead of bit_length + f, so the mask does not
+    # cover raw values below -2^(l-1): such a truncation fails with probability about |raw| / 2^(k+l)
+    def f3a(self, v_pre_low):
+        """Class predicate: exact pre-truncation value (lower end of its interval) below -2^(l-1-2f)."""
+        return v_pre_low < -Fr(1 << (self.l - 1), 1 << (2 * self.f))
+
+    def mul_L(self, a, b):
+        """Product inside a list operation (scalar_mul, schur_prod): as mul_R plus the F3a class mark."""
+        r = self.mul_R(a, b)
+        low = a.V * b.V - (abs(a.V) * b.X + abs(b.V) * a.X + a.X * b.X)
+        if self.f3a(low):
+            r = R(r.V, r.E, r.X, r.kn | {'F3a'})
+        return r
 
     # -- multiplication
     def mul_R(self, a, b):
@@ -549,16 +568,16 @@ class RefEval:
     def r_smul(self, node, path):
         a = self.scal(self.ev(node[1], path + (1,)))
         x = self.lst(self.ev(node[2], path + (2,)))
-        return [self.mul_R(a, b) for b in x]
+        return [self.mul_L(a, b) for b in x]
 
     def r_schur(self, node, path):
         x = self.lst(self.ev(node[1], path + (1,)))
         y = self.lst(self.ev(node[2], path + (2,)), len(x))
-        return [self.mul_R(a, b) for a, b in zip(x, y)]
+        return [self.mul_L(a, b) for a, b in zip(x, y)]
 
     def r_schur_self(self, node, path):
         x = self.lst(self.ev(node[1], path + (1,)))
-        return [self.mul_R(a, a) for a in x]
+        return [self.mul_L(a, a) for a in x]
 
     def _dot(self, x, y):
         """Dot product: the sum of n products, each within one unit (n units in total)."""
@@ -618,6 +637,8 @@ class RefEval:
         kn = frozenset()
         for r in x:
             kn |= r.kn
+        if any(a.V - a.X < 0 for a in x) and self.f3a(-big):
+            kn = kn | {'F3a'}  # some partial product may be a large negative value
         return R(V, E, X, kn)
 
     def r_ifelse_l(self, node, path):
@@ -665,7 +686,16 @@ class RefEval:
         if len(A[0]) != len(B):
             raise Invalid('shape mismatch')
         cols = [list(c) for c in zip(*B)]
-        return [[self._dot(row, col) for col in cols] for row in A]
+        out = []
+        for row in A:
+            o = []
+            for col in cols:
+                r = self._dot(row, col)
+                if self.f3a(r.V - (r.X - len(row) * self.u)):
+                    r = R(r.V, r.E, r.X, r.kn | {'F3a'})
+                o.append(r)
+            out.append(o)
+        return out
 
     def r_row(self, node, path):
         M = self.ev(node[1], path + (1,))
@@ -731,8 +761,11 @@ class RefEval:
         for a in x:
             self.chk(R(v.V - a.V, v.E + a.E, v.X + a.X))
         E, X = self._sl_bound(x, (v,))
-        out = [R(a.V, E, X, self.kn(*x, v)) for a in x]
-        out[i] = R(v.V, E, X, self.kn(*x, v))
+        kn = self.kn(*x, v)
+        if any(self.f3a(v.V - a.V - v.X - a.X) for a in x):
+            kn = kn | {'F3a'}  # scalar_mul(value - x[i], unit vector)
+        out = [R(a.V, E, X, kn) for a in x]
+        out[i] = R(v.V, E, X, kn)
         return out
 
     def r_sl_del(self, node, path):
@@ -769,7 +802,10 @@ class RefEval:
         E, X = 2 * E, 2 * X
         vals = [a for a in x]
         vals.insert(i, v)
-        return [R(a.V, E, X, self.kn(*x, v)) for a in vals]
+        kn = self.kn(*x, v)
+        if any(self.f3a(v.V - a.V - v.X - a.X) for a in list(x) + [R(0)]):
+            kn = kn | {'F3a'}  # scalar_mul(value - ([0] + x)[i], unit vector)
+        return [R(a.V, E, X, kn) for a in vals]
 
 
 # ------------------------------------------------------------------ interpreter on the real runtime
@@ -1127,6 +1163,8 @@ def check_record(l, f, rec, rv, got):
         known = None
         if f3(path):
             known = 'F3'
+        elif 'F3a' in r.kn:
+            known = 'F3a'  # failed list-operation truncation: garbage value, no explained tolerance
         elif r.kn and err <= r.X * one:
             known = 'F6' if 'F6' in r.kn else 'F7'
         res.append(('value', path, f'node {path} element {k} ({rec_at(rec, path)[0]}): got {raw}/2^{f}, exact '
